@@ -27,7 +27,7 @@ ASSUMPTIONS = [
     "path-typed values are spelled absolute (jsonargparse keeps relative spellings by design, so a config saved into another directory is not expected to re-parse)",
     "fsspec / URL targets are off (default)",
 ]
-PROBES = ["save-refused-overwrite", "save-failed-config-cause", "save-ok-multifile-with-subfiles", "save-ok-reparsed", "fault-in-save", "torn-write", "sweep-site"]
+PROBES = ["save-ok-in-place-after-edits", "save-refused-overwrite", "save-failed-config-cause", "save-ok-multifile-with-subfiles", "save-ok-reparsed", "fault-in-save", "torn-write", "sweep-site"]
 ANCHOR_FILES = ("_core", "_util")
 NO_SHRINK = ("save", "save/*", "parser/opts", "parser/opts/*", "world/dirs")
 SHRINK_DICTS = ("world/files", "world/env", "world/symlinks", "world/dirmodes", "save/pre")
@@ -206,11 +206,36 @@ def generate(rng, tier):
         "as": rng.choice(["str", "str", "str", "pathlib", "Path_fc"]),
     }
     load = {"method": rng.choice(["path", "path", "args"]), "extra": rng.choice([[], ["--a=5"], ["--s=vz"]])}
+    # saving back IN PLACE: the target lies in the directory the sub-files were loaded from (every sub-file's
+    # destination is its own source), or is the loaded main file itself
+    c = rng.random()
+    if c < 0.22:
+        save["inplace"] = "subdir" if c < 0.15 else "main"
+        save["target"] = "src/B/" + rng.choice(["resaved.yaml", "main2.json"]) if c < 0.15 else "src/main.yaml"
+        save["path"] = "$W/" + save["target"] if rng.random() < 0.5 else os.path.relpath(save["target"], cwd)
+        if rng.random() < 0.75:
+            save["overwrite"] = True
+    # valid edits made to the loaded config before it is saved (kept apart from the invalidating 'mutate')
+    edits = []
+    if rng.random() < 0.6:
+        cand = [{"path": ["s"], "value": "e%d" % rng.randint(1, 99)}]
+        if not ("dg" in feats and "lk" in feats):  # 'a' is the source of a link: editing it alone leaves a config no parse produces
+            cand.append({"path": ["a"], "value": rng.randint(100, 199)})
+        for n in ("inner1", "inner2"):
+            if n in feats:
+                cand += [{"path": [n, "q"], "value": rng.randint(100, 199)}, {"path": [n, "v"], "value": [rng.randint(10, 19) + 0.5]}] * 2
+        if "inner1" in feats and "deep" in feats:
+            cand.append({"path": ["inner1", "deep", "r"], "value": rng.randint(100, 199)})
+        if "dct" in feats:
+            cand += [{"path": ["dct", "p"], "value": rng.randint(100, 199)}] * 2
+        if "obj" in feats:
+            cand += [{"path": ["obj", "init_args", "n"], "value": rng.randint(100, 199) + 0.0}] * 2
+        edits = [copy.deepcopy(x) for x in rng.sample(cand, min(len(cand), rng.randint(1, 3)))]
     spc = []
     if "p" in feats and rng.random() < 0.5:
         spc.append("p")
     classes = [rng.choice(["ValueError", "TypeError"]), rng.choice(["RuntimeError", "SimAbort", "OSError"])]
-    return {"parser": spec, "world": w, "load": load, "mutate": mut, "save": save, "save_path_content": spc, "sweep": {"max_sites": 30 if tier == "quick" else 60, "cb_classes": classes, "os_errno": rng.choice(["EIO", "ENOSPC", "EACCES", "EMFILE"])}, "faults": [], "tier": tier}
+    return {"parser": spec, "world": w, "load": load, "mutate": mut, "edits": edits, "save": save, "save_path_content": spc, "sweep": {"max_sites": 30 if tier == "quick" else 60, "cb_classes": classes, "os_errno": rng.choice(["EIO", "ENOSPC", "EACCES", "EMFILE"])}, "faults": [], "tier": tier}
 
 
 # ---------------------------------------------------------------------------------------------------
@@ -231,6 +256,15 @@ def obtain_cfg(p, sc, root):
             cfg[m["key"]] = {"u": Unrep()}
         elif m["key"] in cfg or "." not in m["key"] or m["key"].rsplit(".", 1)[0] in cfg:
             cfg[m["key"]] = m["value"]
+    for e in sc.get("edits", []):
+        try:
+            obj = cfg
+            for k in e["path"][:-1]:
+                obj = obj[k]
+            if obj is not None and not isinstance(obj, str):
+                obj[e["path"][-1]] = copy.deepcopy(e["value"])
+        except (KeyError, TypeError):
+            pass
     return cfg
 
 
@@ -398,6 +432,8 @@ def save_and_judge(sc, root, faults):
                         ctx.violation("reparse", dict(base, cause="success", effect="reparse-differs"), "saved: %s\nreparsed: %s" % (cfg_before[:600], got[:600]))
                     else:
                         sim.probe("save-ok-reparsed")
+                        if sv.get("inplace") and sc.get("edits"):
+                            sim.probe("save-ok-in-place-after-edits")
                 if sv["multifile"] and len(allowed) > 1:
                     sim.probe("save-ok-multifile-with-subfiles")
         else:
@@ -447,7 +483,7 @@ def execute(sc, ctx):
         ctx.absorb(gold)
         ctx.record("save", gold["brief"])
         ctx.nontrivial = gold["touched"]
-        ctx.notes["params"] = [sc["save"]["multifile"], sc["save"]["overwrite"], sc["save"]["skip_validation"], sorted(m.get("key", "") for m in sc.get("mutate", [])), sorted(set(sc["save"]["pre"].values()))]
+        ctx.notes["params"] = [sc["save"]["multifile"], sc["save"]["overwrite"], sc["save"]["skip_validation"], sc["save"].get("inplace"), len(sc.get("edits", [])), sorted(m.get("key", "") for m in sc.get("mutate", [])), sorted(set(sc["save"]["pre"].values()))]
         if getattr(ctx, "golden", False) or not sc.get("sweep"):
             return
         sites = [(j, k) for j, k in enumerate(gold["kinds"]) if k.startswith(FAILABLE)]
